@@ -7,6 +7,7 @@
 From Coq Require Import List NArith Bool.
 Import ListNotations.
 Require Import QtlVerif.AmalgamDefs QtlVerif.AmalgamProofs QtlVerif.AmalgamCondDefs QtlVerif.AmalgamCondProofs.
+Require Import QtlVerif.AmalgamCommentDefs QtlVerif.AmalgamCommentProofs.
 Local Open Scope N_scope.
 
 (* included_once: no file body is emitted twice.  For arbitrary trees this is FALSE of the generator
@@ -172,3 +173,35 @@ Example C20_known_chain_with_foreign_content_is_not_confined :
   confined known_groups (fun _ => false)
     [[LOnce; LIf 10 (CDef 1); LIf 40 (CDef 5); LEndif; LEndif]; good_source] 1 [1; 2]%N [3]%N = false.
 Proof. vm_compute. reflexivity. Qed.
+
+(* ---- comments.  The generator's directive regex works on raw text: a directive inside a comment is expanded too, the body lands
+   in the comment and the once-only rule deletes the real directive (header = generator output, declarations gone).
+   [includes_outside_comments] is decidable and evaluated by the extracted driver on the real tree on every run.  Under it, for
+   EVERY tree: the expansion guarded by "the body of a file starts in code" ([expand_g]: the guard is checked at every nesting
+   level, on the lexer state of the whole text written so far) is the expansion itself - the guard never fires - and every file
+   expansion entered in code hands the lexer back outside a block comment. *)
+Theorem C20_bodies_start_in_code : forall t, includes_outside_comments t = true -> expand_g t = expand t.
+Proof. exact expand_g_eq. Qed.
+Print Assumptions C20_bodies_start_in_code.
+
+Theorem C20_file_expansion_is_comment_neutral : forall t, includes_outside_comments t = true ->
+  forall fuel q g out, ost out = LCode ->
+  process_g fuel t q g out = process fuel t q g out /\ ends_ok (ost (fst (process fuel t q g out))) = true.
+Proof. exact process_g_eq. Qed.
+Print Assumptions C20_file_expansion_is_comment_neutral.
+
+Theorem C20_amalgamation_ends_outside_comment : forall t, includes_outside_comments t = true ->
+  ends_ok (ost (fst (expand t))) = true.
+Proof. exact expansion_ends_outside_comment. Qed.
+Print Assumptions C20_amalgamation_ends_outside_comment.
+
+(* non-vacuity: a tree that satisfies the predicate; and the round-5 shape (directive quoted in a block comment before the real
+   one) does not: the predicate is false, names the file, and the guarded expansion really differs (the guard fires) *)
+Example C20_comment_predicate_holds : includes_outside_comments ok_tree = true /\ emitted_files ok_tree = [root_dir ++ [qh]; root_dir ++ [bh]].
+Proof. vm_compute. split; reflexivity. Qed.
+Example C20_comment_predicate_refutes_doc_example :
+  includes_outside_comments doc_tree = false
+  /\ files_with_include_in_comment doc_tree = [root_dir ++ [qh]]
+  /\ starved (snd (expand_g doc_tree)) = true /\ starved (snd (expand doc_tree)) = false
+  /\ decomment LCode (generate ok_tree) <> decomment LCode (generate doc_tree).
+Proof. vm_compute. repeat split; try reflexivity. discriminate. Qed.
